@@ -556,10 +556,16 @@ int cmdRun(int argc, char** argv, bool replay) {
   if (!w) return 2;
   w->warmup();
   g_mode = MODE_ONESHOT;
-  RunResult r = w->execute(plan);
+  const Json* ex = plan.find("expect");
+  RunResult r;
+  if (replay && ex && ex->gets("status") == "san") {
+    // the expected failure kills the process (sanitizer report): contain it in a child of this fresh process
+    r = runIsolated(w, plan, 120, prop);
+  } else {
+    r = w->execute(plan);
+  }
   printf("RESULT %s\n", r.toJson().dump().c_str());
   if (!replay) return r.failed() ? 1 : 0;
-  const Json* ex = plan.find("expect");
   std::string eclause = ex ? ex->gets("clause") : "";
   std::string estatus = ex ? ex->gets("status") : "";
   std::string ehash = ex ? ex->gets("evhash") : "";
@@ -568,7 +574,7 @@ int cmdRun(int argc, char** argv, bool replay) {
     printf("REPLAY passed: no violation (expected %s)\n", eclause.c_str());
     return 0;
   }
-  if (r.clause == eclause && r.status == estatus && (ehash.empty() || hash == ehash)) {
+  if (r.clause == eclause && r.status == estatus && (ehash.empty() || hash == ehash || estatus == "san")) {
     printf("REPLAY reproduced property=%s clause=%s evhash=%s\n%s\n", prop.c_str(), r.clause.c_str(), hash.c_str(), r.detail.c_str());
     return 1;
   }
@@ -602,7 +608,7 @@ int cmdShrink(int argc, char** argv) {
     printf("SHRINK not-reproduced: run passes\n");
     return 2;
   }
-  if (!sameFailure(a, b) || a.evhash != b.evhash) {
+  if (!sameFailure(a, b) || (a.evhash != b.evhash && a.status != "san")) {
     printf("SHRINK nondeterministic: %s/%s/%llx vs %s/%s/%llx\n", a.status.c_str(), a.clause.c_str(), (unsigned long long)a.evhash,
            b.status.c_str(), b.clause.c_str(), (unsigned long long)b.evhash);
     return 2;
